@@ -574,7 +574,7 @@ Nop == /\ GenMode = "sim"
        /\ UNCHANGED <<failBudget, userDone, approvedPending, approvedAny, cancelled, userClosed, faults>>
 
 (*************************** judging the step with the shared formulas ***********)
-ObOf(r) == [st |-> r.st, tRun |-> r.tRun, wsOpen |-> r.wsOpen, ev |-> r.ev, panicked |-> r.panicked, hung |-> r.deadlocked]
+ObOf(r) == [st |-> r.st, tRun |-> r.tRun, wsOpen |-> r.wsOpen, buf |-> Len(r.buf), ev |-> r.ev, panicked |-> r.panicked, hung |-> r.deadlocked]
 
 Judged(e, act) == JudgeStep(RoleOf[e], Stored0[e], act, acc[e], ObOf(E'[e]))
 JudgeAll ==
